@@ -106,6 +106,7 @@ func pairFrag(kind string, frag int) (transport.Conn, rawPeer, func(), error) {
 	}
 	ch := make(chan acc, 1)
 	go func() {
+		defer recoverNote()
 		c, err := srv.Accept()
 		ch <- acc{c, err}
 	}()
@@ -154,6 +155,7 @@ func connPair(kind string) (transport.Conn, transport.Conn, func(), error) {
 	}
 	ch := make(chan acc, 1)
 	go func() {
+		defer recoverNote()
 		c, err := srv.Accept()
 		ch <- acc{c, err}
 	}()
@@ -227,6 +229,7 @@ func (x *c03) loopbackReceiveFrag(kind string, stream []byte, sizes []int, lim i
 		c.Emit("case %d ws lim=%d frag=%d msgs=%s end=%s", n, lim, frag, strings.Join(ms, ","), map[bool]string{true: "close", false: "drop"}[clean])
 	}
 	go func() {
+		defer recoverNote()
 		for i, ch := range chunks {
 			if err := peer.send(ch, !(kind == "ws" && i == textAt)); err != nil {
 				return
@@ -312,6 +315,7 @@ func (x *c03) loopbackSend(kind string, ps []packet.Generic, asyncs []bool, dela
 	var rerr error
 	done := make(chan struct{})
 	go func() {
+		defer recoverNote()
 		got, rerr = peer.readAll()
 		close(done)
 	}()
@@ -375,20 +379,20 @@ func (x *c03) loopbackQuick() {
 		total += p.Len()
 	}
 	cases := []lc{
-		{"ws", small(1), pieces(1), 0, false, true},                                         // one packet, one byte per message
-		{"ws", small(4), pieces(3), 0, false, true},                                         // packets spanning several messages
-		{"ws", small(6), whole, 0, false, true},                                             // several packets in one message
-		{"ws", small(6), pieces(40), 0, false, false},                                       // peer drops the connection at the end
-		{"ws", []packet.Generic{publishOfLen(r, 9000)}, whole, 0, false, true},              // a 9 KB message
+		{"ws", small(1), pieces(1), 0, false, true},                            // one packet, one byte per message
+		{"ws", small(4), pieces(3), 0, false, true},                            // packets spanning several messages
+		{"ws", small(6), whole, 0, false, true},                                // several packets in one message
+		{"ws", small(6), pieces(40), 0, false, false},                          // peer drops the connection at the end
+		{"ws", []packet.Generic{publishOfLen(r, 9000)}, whole, 0, false, true}, // a 9 KB message
 		{"ws", append(small(2), publishOfLen(r, 9000), &packet.Pingreq{}), whole, 0, false, true},
-		{"ws", coalesced, whole, 0, false, true},                                            // a 20 KB message of many packets
+		{"ws", coalesced, whole, 0, false, true}, // a 20 KB message of many packets
 		{"ws", coalesced, pieces(7000), 0, false, true},
-		{"ws", append(small(3), publishOfLen(r, 5000)), whole, 32, false, true},             // one message as frames of ~32 bytes
+		{"ws", append(small(3), publishOfLen(r, 5000)), whole, 32, false, true}, // one message as frames of ~32 bytes
 		{"ws", append(small(3), publishOfLen(r, 5000)), pieces(600), 32, false, true},
 		{"ws", coalesced, whole, 125, false, true},
 		{"ws", []packet.Generic{publishOfLen(r, 4095), publishOfLen(r, 4096), publishOfLen(r, 4097)}, whole, 0, false, true},
 		{"ws", []packet.Generic{publishOfLen(r, 4096)}, pieces(4096), 0, false, true},
-		{"ws", small(5), pieces(9), 0, true, true},                                          // a text message somewhere
+		{"ws", small(5), pieces(9), 0, true, true}, // a text message somewhere
 		{"tcp", small(6), pieces(3), 0, false, true},
 		{"tcp", coalesced, pieces(7000), 0, false, true},
 		{"tcp", append(small(2), publishOfLen(r, 9000)), whole, 0, false, true},
@@ -462,7 +466,7 @@ func (x *c03) loopbackLibrarySender(kind string, ps []packet.Generic, asyncs []b
 			texts = append(texts, hx.PktText(p))
 		}
 		// everything arrived: end the stream the clean way and see the EOF
-		go func() { _ = cl.Close() }()
+		go func() { defer recoverNote(); _ = cl.Close() }()
 		_, rerr = srv.Receive()
 	})
 	_ = cl.Close()
@@ -638,6 +642,7 @@ func (x *c03) loopbackC19(runs int) {
 		var rerr error
 		rdone := make(chan struct{})
 		go func() {
+			defer recoverNote()
 			defer close(rdone)
 			for {
 				p, err := b.Receive()
@@ -653,6 +658,7 @@ func (x *c03) loopbackC19(runs int) {
 			id := id
 			wg.Add(1)
 			go func() {
+				defer recoverNote()
 				defer wg.Done()
 				for _, rec := range recs[id] {
 					p := packet.NewPublish()
